@@ -144,6 +144,24 @@ def _file_value(sym, raw):
     return raw
 
 
+def _reaches_choice_member(sym, limit=200):
+    """Does the option depend - directly or through other options - on a member of a choice?  (Choices are resolved
+    after the plain options during a load, which is the recorded mechanism.)"""
+    seen, todo = set(), [sym]
+    while todo and len(seen) < limit:
+        x = todo.pop()
+        if id(x) in seen:
+            continue
+        seen.add(id(x))
+        for d in getattr(x, "dependencies", ()):
+            if getattr(d, "is_constant", False):
+                continue
+            if getattr(d, "choice", None) is not None or isinstance(d, core.Choice):
+                return True
+            todo.append(d)
+    return False
+
+
 def _context_free(prog, name):
     """No condition, default or range of `name` (incl. enclosing menus/ifs) mentions another option."""
     tab = kgen.sym_table(prog)
@@ -273,7 +291,7 @@ def execute(sc, ctx):
                         try:
                             via = ("overridden-by-set-default" if any(core.expr_value(c) for _, c, _ in s.weak_rev_values) else
                                    "overridden-by-imply" if (s.orig_type == core.BOOL and core.expr_value(s.weak_rev_dep)) else
-                                   "depends-on-choice-member" if any(getattr(d, "choice", None) is not None for d in s.dependencies) else "plain")
+                                   "depends-on-choice-member" if _reaches_choice_member(s) else "plain")
                         except Exception:
                             via = "plain"
                         ctx.violate(f"C08/sdkconfig-policy/stored-default-not-kept/{via}",
